@@ -23,7 +23,8 @@ RULE = ("case = a history of events on one dataset (POST /entities with any comb
         "cases, by the real FullSyncPipeline.sync over a scripted source - 'all outstanding lease timers fire', 'time passes, less than a lease' and 'the timers older than that fire'), entities over "
         "6 ids x 3 contents x deleted flag; well-formed syncs with 0-3 disturbances inserted plus unconstrained random histories "
         "and a family 'leased sync, request rejected for its sync id, silence past the lease, then the sync's batches/end', "
-        "a family 'sync during which entities arrive only through a transaction' and a family 'leased sync, pause, re-start with "
+        "a family 'fullsync job run through the real pipeline with none / a capped / an uncapped log error handler and a page "
+        "containing an entity the sink refuses', a family 'sync during which entities arrive only through a transaction' and a family 'leased sync, pause, re-start with "
         "the same id / job start / refresh / rejected request / nothing, old timers fire, the sync's batches and end' "
         "(thorough: also all 1000 three-event continuations over a 10-event alphabet); after every event the status class, the "
         "change-feed length and the latest view are compared. "
@@ -86,8 +87,20 @@ PAUSE = {"k": "pause"}            # time passes, less than a lease
 EXPIRE_OLD = {"k": "expire_old"}  # the timers that were running at the last pause fire, the younger ones do not
 
 
-def mk(events, pipeline=False):
-    return {"lease_ms": LEASE_MS, "pipeline": pipeline, "events": events}
+LOG1 = '[{"errorHandler":"log","maxItems":1}]'   # a `log` error handler that accepts one failing entity
+LOG = '[{"errorHandler":"log"}]'                  # ... any number of failing entities
+
+
+def mk(events, pipeline=False, on_error=""):
+    return {"lease_ms": LEASE_MS, "pipeline": pipeline, "on_error": on_error, "events": events}
+
+
+def jpoison(n, ents, k, pid):
+    """a page of job run n (pipeline mode) with an entity the sink refuses (nil reference, fresh id pid) at index k"""
+    e = jbatch(n, ents)
+    e["poison"] = k
+    e["poison_id"] = pid
+    return e
 
 
 BASE = [(1, 1, 0), (2, 1, 0), (3, 1, 0)]
@@ -95,7 +108,8 @@ BASE = [(1, 1, 0), (2, 1, 0), (3, 1, 0)]
 
 def witness_cases():
     base = _witness_cases()
-    return base + [mk(c["events"], True) for c in base if any(e["k"] == "jstart" for e in c["events"])] + [
+    return base + [mk(c["events"], True) for c in base
+                   if not c["pipeline"] and any(e["k"] == "jstart" for e in c["events"])] + [
         # a job run that fails between two pages never ends its sync; the next run starts over
         mk([plain(BASE), jstart(1), jbatch(1, [(1, 2, 0)]), jabort(1), plain([(2, 3, 0)]), jstart(1), jbatch(1, [(3, 2, 0)]),
             jend(1)], True)]
@@ -134,6 +148,16 @@ def _witness_cases():
         mk([plain(BASE), jstart(1), jbatch(1, [(1, 2, 0)]), plain([(4, 1, 0)]), http([(5, 1, 0)], False, 3), EXPIRE,
             jbatch(1, [(2, 2, 0)]), jend(1)]),
         mk([plain(BASE), jstart(1), plain([]), http([], False, 3, True), EXPIRE, plain([(2, 2, 0)]), jend(1)]),
+        # a fullsync job run that is cut short by a refused entity (capped log handler / no handler) is an abandoned
+        # sync: what was in front of the refused entity is written, nothing is tombstoned, the next run starts over;
+        # with an uncapped log handler the run goes on and completes
+        mk([plain(BASE + [(4, 1, 0)]), jstart(1), jbatch(1, [(2, 2, 0)]), jpoison(1, [(1, 2, 0), (3, 2, 0), (4, 2, 0)], 1, 9),
+            plain([]), jstart(1), jbatch(1, [(1, 3, 0), (2, 3, 0), (3, 3, 0)]), jend(1)], True, LOG1),
+        mk([plain(BASE + [(4, 1, 0)]), jstart(1), jpoison(1, [(1, 2, 0), (3, 2, 0)], 0, 9), txn([(2, 2, 0)])], True, ""),
+        mk([plain(BASE + [(4, 1, 0)]), jstart(1), jpoison(1, [(1, 2, 0), (3, 2, 0), (4, 2, 0)], 1, 9), jbatch(1, [(5, 1, 0)]),
+            jend(1)], True, LOG),
+        mk([plain(BASE + [(4, 1, 0)]), jstart(2), jpoison(2, [(1, 2, 0), (3, 2, 0)], 2, 9), http([(2, 2, 0)], True, 1),
+            http([], False, 1, True)], True, LOG1),
         # a write through POST /transactions during a sync is a write since its start (HTTP- and job-driven)
         mk([plain(BASE), http([(1, 2, 0)], True, 1), txn([(2, 5, 0)]), http([], False, 1, True)]),
         mk([plain(BASE), jstart(1), jbatch(1, [(1, 2, 0)]), txn([(2, 1, 0), (4, 1, 0)]), jend(1)]),
@@ -338,6 +362,46 @@ def partial_expiry_history(rng):
     return evs
 
 
+def refused_entity_history(rng):
+    """a fullsync job run through the real pipeline in which the sink refuses an entity of some page: with a capped log
+    handler (or none) the run stops there and must not complete the sync; with an uncapped one it goes on.  Returns
+    (events, on_error)."""
+    mode = rng.choice([LOG1, LOG1, LOG, ""])
+    evs = [plain([(i, 1, 0) for i in range(1, rng.range(4, 6))])]
+    n = rng.range(1, 2)
+    pid = 9
+    if rng.chance(1, 4):
+        evs.append(http(rand_ents(rng, 2), True, rng.range(0, 2)))   # an HTTP sync is open when the job starts
+    evs.append(jstart(n))
+    for _ in range(rng.range(0, 2)):
+        evs.append(jbatch(n, rand_ents(rng, 3)))
+    page = rand_ents(rng, 4)
+    evs.append(jpoison(n, page, 0 if mode == "" else rng.range(0, len(page)), pid))
+    pid += 1
+    stopped = mode != LOG
+    for _ in range(rng.range(0, 3)):
+        r = rng.below(7)
+        if r == 0:
+            evs.append(plain(rand_ents(rng, 2)))
+        elif r == 1:
+            evs.append(txn(rand_ents(rng, 2)))
+        elif r == 2 and not stopped:
+            page = rand_ents(rng, 3)
+            evs.append(jpoison(n, page, 0 if mode == "" else rng.range(0, len(page)), pid))
+            pid += 1
+            stopped = mode != LOG
+        elif r == 3 and stopped:
+            evs.append(jstart(n))                                   # the next run of the job
+            stopped = False
+        elif r == 4:
+            evs.append(http(rand_ents(rng, 2), False, rng.range(0, 2), rng.chance(1, 2)))
+        else:
+            evs.append(jbatch(n, rand_ents(rng, 3)))
+    if rng.chance(2, 3):
+        evs.append(jend(n))
+    return evs, mode
+
+
 def gen(rng, tier):
     out = []
     if tier == "quick":
@@ -356,6 +420,9 @@ def gen(rng, tier):
         out.append(mk(txn_during_sync_history(rng), rng.chance(1, 2)))
     for _ in range({"quick": 60, "search": 100}.get(tier, 600)):
         out.append(mk(partial_expiry_history(rng), rng.chance(1, 2)))
+    for _ in range({"quick": 40, "search": 80}.get(tier, 400)):
+        evs, mode = refused_entity_history(rng)
+        out.append(mk(evs, True, mode))
     if tier == "thorough":
         # every history of length 3 over a small alphabet after the common prefix (no timers: cheap)
         alpha = [http([(1, 2, 0)], True, 1), http([(2, 2, 0)], False, 1), http([(2, 2, 0)], False, 0),
@@ -449,9 +516,12 @@ def ent_term(e):
     return "mkEnt %d %d %s" % (e[0], e[1], vlib.coq_bool(e[2]))
 
 
-def ev_term(e):
+def ev_term(e, on_error=""):
     k = e["k"]
     ents = vlib.coq_list([ent_term(x) for x in e.get("ents", [])])
+    if k == "jbatch" and "poison" in e and on_error != LOG:
+        # the run stops at the refused entity: what is in front of it is written, the call fails
+        return "DJobPageFail %d %s" % (e["n"], vlib.coq_list([ent_term(x) for x in e["ents"][:e["poison"]]]))
     if k == "http":
         return "DEv (EHttp %s %d %s %s)" % (vlib.coq_bool(e.get("start", False)), e.get("id", 0),
                                             vlib.coq_bool(e.get("end", False)), ents)
@@ -480,7 +550,7 @@ def step_term(s):
 def term(c, o):
     skipped = o.get("outcome") == "skipped"
     steps = [] if skipped else o.get("steps", [])
-    return "mkCase %s %s %s" % (vlib.coq_list([ev_term(e) for e in c["events"]]), vlib.coq_bool(skipped),
+    return "mkCase %s %s %s" % (vlib.coq_list([ev_term(e, c.get("on_error", "")) for e in c["events"]]), vlib.coq_bool(skipped),
                                 vlib.coq_list([step_term(s) for s in steps]))
 
 
@@ -558,9 +628,12 @@ class _Cur:
                     self.why_dead = "expired-own-timer" if gen == self.gen else "expired-stale-timer"
                 self.started, self.seen, self.lease, self.sid, self.own = False, set(), False, 0, None
 
-    def step(self, e):
+    def step(self, e, on_error=""):
         k = e["k"]
         ents = [tuple(x) for x in e.get("ents", [])]
+        if k == "jbatch" and "poison" in e and on_error != LOG:
+            self.store(ents[:e["poison"]])
+            return 6
         if k == "http":
             if e.get("start"):
                 self.start_full_sync("http")
@@ -638,7 +711,7 @@ def attribute(c, o):
         active = _spec_active_after(evs[:i])
         started_before, own_before, why = m.started, m.own, m.why_dead
         before = dict(m.view)
-        st = m.step(e)
+        st = m.step(e, c.get("on_error", ""))
         if m.obs(st) != steps[i]:
             return None
         if verdict is not None:
@@ -655,6 +728,10 @@ def attribute(c, o):
                 verdict = by_why.get(why, "F09b")
         elif k == "http" and e.get("end") and not e.get("start") and st == 0 and isinstance(own_before, tuple):
             verdict = "F09c"
+        elif (k == "http" and not e.get("start") and e.get("id", 0) != 0 and st == 0 and active is not None
+              and active[0] == "job" and not started_before):
+            # the job's sync was reset by a lease timer: a request with a foreign id is no longer rejected
+            verdict = {"expired-own-timer": "F09a", "expired-stale-timer": "F09d", "http-end-on-job-sync": "F09c"}.get(why)
     return verdict
 
 
@@ -666,7 +743,7 @@ def _mirror_differs(c, o):
     if len(steps) != len(c["events"]):
         return True
     for e, s in zip(c["events"], steps):
-        if m.obs(m.step(e)) != s:
+        if m.obs(m.step(e, c.get("on_error", ""))) != s:
             return True
     return False
 
